@@ -660,11 +660,10 @@ def cli_oracle(ctx, case, impl, which):
         if impl["exc"] == "ValueError" and which == "rpe" and rel == "point_distance_error_ratio" and pairs is not None:
             eref = [mc.F12(p) for p in mc.seen_poses(ref)]
             if all(P2.dist_sq(eref[i], eref[j]) == 0 for i, j in pairs):
-                ctx.fail(case, "stores-result-when-every-pair-is-skipped",
-                         f"evo_rpe raised {impl['exc']}: {impl.get('exc_msg')}: all {len(pairs)} selected pairs have reference "
-                         "distance zero, no result is stored",
-                         tags={"relation": rel, "cause": "all-reference-distances-zero", "exception": "ValueError"})
-                return None
+                # outside the property (decision of the coordinator): values and pair ends are both empty, evo then fails
+                # in the statistics of the empty array; mirrored by the model (RunErr.valueError), counted as a branch
+                ctx.count("branch", "all-pairs-skipped-valueerror")
+                return "ValueError"
         ctx.fail(case, "cli-runs", f"evo_{which} raised {impl['exc']}: {impl.get('exc_msg')} but the documented pipeline succeeds")
         return None
     vals = [float(v) for v in impl["error_array"].reshape(-1)]
